@@ -344,7 +344,7 @@ func fnCommandList(ctx *cmdContext, args map[string]any) (output respValue, err 
 func fnSort(ctx *cmdContext, args map[string]any) (output respValue, err error) {
 	sourceKeyName := args["key"].(string)
 	byPattern, _ := args["by-pattern"].(string)
-	offset_count, hasOffset := args["offset_count"].(*orderedMap)
+	offset_count, hasOffset := args["limit"].(*orderedMap)
 	getPatternsAny, _ := args["get"].([]any)
 	_, isDesc := args["order.desc"]
 	_, isAlpha := args["sorting"] // this name may be a redis bug
